@@ -1067,6 +1067,10 @@ func (d *vdev) content(r ref, depth int) string {
 				s = strings.ToLower(s)
 				sw = strings.Fields(s)
 			}
+			if mode == "ldapmap" && len(sw) == 4 && sw[0] == "map-value" {
+				// a single word is the same value with and without double quotes
+				sw[2] = strings.Trim(sw[2], `"`)
+			}
 			out = append(out, expandWords(sw, subSlots(mode, sw)))
 		}
 		sort.Strings(out)
